@@ -192,6 +192,11 @@ class Prop(PropBase):
             # is inside the isclose zone (don't-care); probe half a sample either side instead
             for lab, t in (("empty-", z.start_time - 0.5 * z.dt), ("empty+", z.start_time + 0.5 * z.dt)):
                 probes.append([lab, X.rat(X.time_offset_s(t, tref)), bool(z.contains(t))])
+            # ... and the instant itself whenever astropy reproduces it exactly (stop_time == start_time bit for bit):
+            # then [start, stop) is exactly empty and nothing may be reported as contained
+            st, sp = z.start_time, z.stop_time
+            if float(st.jd1) == float(sp.jd1) and float(st.jd2) == float(sp.jd2):
+                probes.append(["empty0", X.rat(X.time_offset_s(st, tref)), bool(z.contains(st))])
         out["contains"] = probes
         return {"ok": out}
 
@@ -253,8 +258,16 @@ class Prop(PropBase):
                 return False
             if c["len"] > 1 and c["prov"][1] - c["prov"][0] != m["stride"]:
                 return False
-        if [p[2] for p in c["contains"]] != m["contains"]:
-            return False
+        # the model decides `contains` from the exact rational boundary start + len/rate, the code from the float quotient
+        # len / sample_rate (relative error ~2^-53): a probe AT a boundary is comparable only while that rounding stays well
+        # inside the isclose zone; for very long records (len/rate above ~1e4 s) the boundary probes are don't-care
+        span = F(c["len"]) / F(c["rate"]) if c.get("start") is not None else F(0)
+        fuzzy = F(4, 10**16) * span > ALPHA / 8
+        for (lab, t, got), want in zip(c["contains"], m["contains"]):
+            if fuzzy and lab in ("start", "stop", "empty0"):
+                continue
+            if got != want:
+                return False
         return True
 
     # ---------------------------------------------------------------- property oracle
@@ -340,7 +353,7 @@ class Prop(PropBase):
             if not c["prov_ok"] or c["prov"][0] != first or (n > 1 and c["prov"][1] - c["prov"][0] != stride):
                 return f"retained samples {c['prov']} are not input samples {first}+k*{stride}"
         for lab, t, got in c["contains"]:
-            if lab in ("nostart", "empty-", "empty+"):
+            if lab in ("nostart", "empty-", "empty+", "empty0"):
                 want = False
             else:
                 want = {"start": True, "stop": False, "before": False, "in": True, "last": True,
